@@ -234,6 +234,99 @@ def hGroupby : Handler := handler fun args =>
     | _ => none
   | _ => none
 
+/-- partitions as lists of `(key value|none label)` -/
+def idxRowsOf? (e : SExp) : Option (List (List (Nat × (Option Int × Int)))) := do
+  (← e.toList?).mapM fun p => do
+    (← p.toList?).mapM fun r => match r with
+      | .list [k, v, l] => do pure (← k.toNat?, (← v.toOptInt?, ← l.toInt?))
+      | _ => none
+
+/-- `(groupby-nunique split_every parts)` ↦ `((key n)…)`: `NUnique` (chunk, combine tree, counting aggregate) and the
+    specification, keys in first-appearance order: `(key model spec)` -/
+def hGroupbyNunique : Handler := handler fun args =>
+  match args with
+  | [k, ps] => do
+    let k ← k.toNat?
+    let parts ← rowsOf? ps
+    let keys := dedupNat (parts.flatten.map (·.1))
+    let f := Groupby.nunique k (parts.length + 2) parts
+    pure (.list (keys.map fun key => .list [SExp.ofNat key, SExp.ofNat (f key), SExp.ofNat (Groupby.nuniqueSpec parts.flatten key)]))
+  | _ => none
+
+/-- `(groupby-idx min|max split_every parts)` ↦ `((key current|none spec|none)…)`: the label `IdxMin`/`IdxMax` return as
+    they are (idxmin chunk, `first` aggregate) and the label of the arg-min/arg-max of the whole frame -/
+def hGroupbyIdx : Handler := handler fun args =>
+  match args with
+  | [.sym how, k, ps] => do
+    let k ← k.toNat?
+    let parts ← idxRowsOf? ps
+    let op ← match how with
+      | "min" => some Groupby.opArgmin
+      | "max" => some Groupby.opArgmax
+      | _ => none
+    let keys := dedupNat (parts.flatten.map (·.1))
+    let cur := Groupby.idxCurrent op k (parts.length + 2) parts
+    let spec := Groupby.chunk op Groupby.idxInj parts.flatten
+    pure (.list (keys.map fun key => .list [SExp.ofNat key, SExp.ofOptInt ((cur key).map (·.2)),
+      SExp.ofOptInt ((spec key).map (·.2))]))
+  | _ => none
+
+def cumOp? (name : String) : Option ((Int → Int → Int) × Int) :=
+  match name with
+  | "sum" => some ((· + ·), 0)
+  | "prod" => some ((· * ·), 1)
+  | "count" => some (Groupby.opCount, -1)
+  | _ => none
+
+/-- `(groupby-cum sum|prod|count parts)` ↦ `((dask cells…) (global cells…))`: `GroupByCumulativeFinalizer` partition by
+    partition (flattened) and the cumulative operation over the whole frame; for `count` every cell counts as 0 -/
+def hGroupbyCum : Handler := handler fun args =>
+  match args with
+  | [.sym name, ps] => do
+    let (op, e) ← cumOp? name
+    let parts ← rowsOf? ps
+    let parts := if name == "count" then parts.map (·.map fun r => (r.1, some (0 : Int))) else parts
+    pure (.list [.list ((Groupby.cumDask op e parts).flatten.map SExp.ofOptInt),
+      .list ((Groupby.cumRaw op parts.flatten).map SExp.ofOptInt)])
+  | _ => none
+
+def stOf? (e : SExp) : Option (Groupby.St × List Nat) := do
+  let rows ← (← e.toList?).mapM fun r => match r with
+    | .list [k, v] => do pure (← k.toNat?, ← v.toOptInt?)
+    | _ => none
+  pure (fun k => (rows.find? (·.1 == k)).bind (·.2), rows.map (·.1))
+
+/-- `(cum-filled sum|prod|count a b)` with `a`, `b` = `((key value|none)…)` ↦ `((key value)…)` over the union of the keys,
+    `_cum_agg_filled` with "absent = initial" made explicit -/
+def hCumFilled : Handler := handler fun args =>
+  match args with
+  | [.sym name, a, b] => do
+    let (op, e) ← cumOp? name
+    let (fa, ka) ← stOf? a
+    let (fb, kb) ← stOf? b
+    let f := Groupby.cumFilled op e fa fb
+    pure (.list ((dedupNat (ka ++ kb)).map fun k => .list [SExp.ofNat k, .int ((f k).getD e)]))
+  | _ => none
+
+/-- `(cum-aligned sum|prod|count rows carried)` ↦ cells of `_cum_agg_aligned(part, carried, …)` -/
+def hCumAligned : Handler := handler fun args =>
+  match args with
+  | [.sym name, rows, c] => do
+    let (op, e) ← cumOp? name
+    let rows ← (← rowsOf? (.list [rows])).head?
+    let rows := if name == "count" then rows.map fun r => (r.1, some (0 : Int)) else rows
+    let (fc, _) ← stOf? c
+    pure (.list ((Groupby.cumAligned op e rows fc).map SExp.ofOptInt))
+  | _ => none
+
+/-- `(tree-levels split_every n)` ↦ batch sizes of every inner level of `TreeReduce._layer` -/
+def hTreeLevels : Handler := handler fun args =>
+  match args with
+  | [k, n] => do
+    let k ← k.toNat?; let n ← n.toNat?
+    pure (SExp.ofNatss (Groupby.treeLevels k (n + 2) n))
+  | _ => none
+
 /-! ## C39 -/
 def pairs? (e : SExp) : Option (List (Nat × Nat)) := do
   (← e.toList?).mapM fun r => match r with
@@ -268,7 +361,8 @@ def hCsvParts : Handler := handler fun args =>
     pure (okOr (r.map fun parts => .list (parts.map SExp.ofNatss)))
   | _ => none
 
-def table : List (String × Handler) := [("sdl", hSdl), ("sdl-stats", hSdlStats), ("groupby", hGroupby), ("csv-parts", hCsvParts), ("join", hJoin), ("hash-join", hHashJoin),
+def table : List (String × Handler) := [("sdl", hSdl), ("sdl-stats", hSdlStats), ("groupby", hGroupby), ("groupby-nunique", hGroupbyNunique), ("groupby-idx", hGroupbyIdx), ("groupby-cum", hGroupbyCum),
+  ("cum-filled", hCumFilled), ("cum-aligned", hCumAligned), ("tree-levels", hTreeLevels), ("csv-parts", hCsvParts), ("join", hJoin), ("hash-join", hHashJoin),
   ("stage-index", hStageIndex), ("simple-shuffle", hSimpleShuffle), ("task-shuffle", hTaskShuffle),
   ("layer-wiring", hLayerWiring), ("set-partitions-pre", hSetPartitionsPre),
   ("truthful", hTruthful), ("locslice-divs", hLocSliceDivs), ("partitions-divs", hPartitionsDivs), ("concat-divs", hConcatDivs),
